@@ -592,3 +592,117 @@ func ruleAccessExact(c *Ctx) {
 		}
 	}
 }
+
+// ---------------------------------------------------------------- R-DEFAULT-WINDOW
+//
+// Verify accepts WindowSize = 0 (the range test is 0 ≤ WindowSize), and the parsers and the decoder are correct for
+// it in the letter: with a window of nothing no match is ever found and every match is rejected. That the run clause
+// of C19, the longest-match clause of C12 and the acceptance clause of C07 mean anything for a configuration left at
+// its zero value rests on SetDefaults replacing a zero WindowSize by a positive one. Decided for every SetDefaults
+// whose receiver has an integer field WindowSize of its own: no way from the entry to a return takes the zero side
+// of every test of that field (or meets no test) without passing a store of a value proved ≥ 1 to it.
+
+func init() {
+	reg(&Rule{ID: "R-DEFAULT-WINDOW", Min: 2,
+		Doc: "SetDefaults never returns with WindowSize = 0: on every way on which the field may still be zero a value proved ≥ 1 is stored to it (BufConfig and DecoderConfig; the parsers' configurations complete their buffer part through BufConfig.SetDefaults)",
+		Run: ruleDefaultWindow})
+}
+
+func ruleDefaultWindow(c *Ctx) {
+	n := 0
+	for _, fn := range c.setDefaultsFuncs() {
+		if fn.Blocks == nil || fn.Signature.Recv() == nil {
+			continue
+		}
+		rt := fn.Signature.Recv().Type()
+		if pt, ok := rt.(*types.Pointer); ok {
+			rt = pt.Elem()
+		}
+		st, ok := rt.Underlying().(*types.Struct)
+		if !ok {
+			continue
+		}
+		var wf *types.Var
+		for i := 0; i < st.NumFields(); i++ {
+			if st.Field(i).Name() == "WindowSize" && !st.Field(i).Embedded() {
+				wf = st.Field(i)
+			}
+		}
+		if wf == nil {
+			continue
+		}
+		// a configuration that completes its buffer part through the reflective helpers and BufConfig.SetDefaults
+		// never names the field itself: it is covered by BufConfig's obligation, R-INIT-ORDER and covers-BufConfig
+		direct := false
+		for _, b := range fn.Blocks {
+			for _, in := range b.Instrs {
+				if fa, ok := in.(*ssa.FieldAddr); ok && fieldOfAddr(fa) == wf {
+					direct = true
+				}
+			}
+		}
+		if !direct && c.reachable(fn)[c.method(c.namedType(c.lz, "BufConfig"), "SetDefaults")] {
+			continue
+		}
+		n++
+		fi := c.info(fn)
+		key := fnName(fn) + ":window-set"
+		isW := func(addr ssa.Value) bool { return fieldOfAddr(addr) == wf }
+		seen := map[*ssa.BasicBlock]bool{}
+		stack := []*ssa.BasicBlock{fn.Blocks[0]}
+		bad := ""
+		for len(stack) > 0 && bad == "" {
+			b := stack[len(stack)-1]
+			stack = stack[:len(stack)-1]
+			if seen[b] {
+				continue
+			}
+			seen[b] = true
+			set := false
+			for _, in := range b.Instrs {
+				if s, ok := in.(*ssa.Store); ok && isW(s.Addr) {
+					if k, isK := constInt(s.Val); (isK && k >= 1) || fi.proveAt(linConst(1).sub(fi.lin(s.Val)), b, nil) {
+						set = true
+					}
+				}
+			}
+			if set {
+				continue
+			}
+			last := b.Instrs[len(b.Instrs)-1]
+			if _, isRet := last.(*ssa.Return); isRet {
+				bad = "block " + fmt.Sprint(b.Index)
+				if p := c.pos(last.Pos()); p != "" {
+					bad = p
+				}
+				continue
+			}
+			succs := b.Succs
+			if iff, ok := last.(*ssa.If); ok {
+				u := unNot(Cond{iff.Cond, true})
+				if bo, isBo := u.V.(*ssa.BinOp); isBo && (bo.Op == token.EQL || bo.Op == token.NEQ) {
+					var other ssa.Value
+					if isConstZero(bo.Y) {
+						other = bo.X
+					} else if isConstZero(bo.X) {
+						other = bo.Y
+					}
+					if ld, isLd := other.(*ssa.UnOp); isLd && ld.Op == token.MUL && isW(ld.X) {
+						zeroOnTrue := (bo.Op == token.EQL) == u.True
+						if zeroOnTrue {
+							succs = b.Succs[:1]
+						} else {
+							succs = b.Succs[1:]
+						}
+					}
+				}
+			}
+			stack = append(stack, succs...)
+		}
+		c.check(bad == "", key, fn.Pos(), "a zero WindowSize is replaced by a value ≥ 1 on every way through SetDefaults",
+			fmt.Sprintf("SetDefaults can return (at %s) with WindowSize still 0: Verify accepts that value, and a parser or decoder with a window of nothing finds and accepts no match at all — a run of one byte stays literals (C19), valid matches are refused (C07)", bad))
+	}
+	if n == 0 {
+		c.fail("SetDefaults:WindowSize", token.NoPos, "no SetDefaults on a configuration with a WindowSize field of its own found")
+	}
+}
